@@ -33,18 +33,19 @@ impl Prop for C11Prop {
             large_pct: 15,
             n_small: (0, 9),
             n_large: (10, 16),
-            regimes: vec![WeightRegime::AllNan, WeightRegime::Dyadic, WeightRegime::Nasty, WeightRegime::SmallInt],
+            regimes: vec![WeightRegime::AllNan, WeightRegime::Dyadic, WeightRegime::Nasty, WeightRegime::SmallInt, WeightRegime::MixedScale, WeightRegime::Tiny],
             kinds,
             shapes: Some(vec![Shape::Gnp, Shape::Gnp, Shape::Cliques, Shape::Cliques, Shape::Star, Shape::Grid, Shape::Bipartite, Shape::Cycle, Shape::Tree, Shape::Union]),
             lifecycle_pct: 25,
             keyings: 1,
+            boundary_per_mille: 8,
         }
         .gen("C11", seed, idx / 8 * 7 + idx % 8);
         let k = match tier {
             Tier::Quick => 3,
             Tier::Thorough => 5,
         };
-        case.envs = gen::keyings(seed, k).into_iter().map(|k| Env { keying: k, pool: 1, sched: 0 }).collect();
+        case.envs = gen::envs(seed, k);
         case
     }
     fn run_env(&self, case: &Case, env: &Env, cx: &mut Ctx) {
